@@ -42,19 +42,30 @@ def laws(rng, g, past):
     return out
 
 
-def eval_side(monitor, f, data, n):
+def eval_side(monitor, f, data, n, hist=None):
     text = "out = " + F.to_text(f)
     vs = sorted(data)
     if monitor == "offd":
         o = impl.eval_offline_discrete(text, vs, data, n)
         return o if o[0] != "ok" else ("ok", [p[1] for p in o[1]])
+    if monitor == "ond-reset" and hist:
+        # the monitor object is reused: a history, reset(), then the trace
+        def go():
+            spec = impl.make_spec("ond", text, vs)
+            spec.parse()
+            k = len(next(iter(hist.values())))
+            for i in range(k):
+                spec.update(i, [(v, hist[v][i]) for v in vs])
+            spec.reset()
+            return [spec.update(i, [(v, data[v][i]) for v in vs]) for i in range(n)]
+        return impl.guarded(go)
     return impl.run_online_discrete(text, vs, data, n)
 
 
-def check_instance(ctx, monitor, name, lhs, rhs, data, n):
-    l = eval_side(monitor, lhs, data, n)
-    r = eval_side(monitor, rhs, data, n)
-    rep = {"law": name, "monitor": monitor, "lhs": "out = " + F.to_text(lhs), "rhs": "out = " + F.to_text(rhs),
+def check_instance(ctx, monitor, name, lhs, rhs, data, n, hist=None):
+    l = eval_side(monitor, lhs, data, n, hist)
+    r = eval_side(monitor, rhs, data, n, hist)
+    rep = {"history": hist, "law": name, "monitor": monitor, "lhs": "out = " + F.to_text(lhs), "rhs": "out = " + F.to_text(rhs),
            "lhs_proto": F.to_proto(lhs), "rhs_proto": F.to_proto(rhs), "data": data, "n": n, "impl_lhs": l, "impl_rhs": r}
     if l[0] != "ok" or r[0] != "ok":
         return Violation("law %s on %s: evaluation raised %r / %r" % (name, monitor, l[1:] if l[0] != "ok" else "ok",
@@ -73,17 +84,18 @@ def check_instance(ctx, monitor, name, lhs, rhs, data, n):
 
 def explore(ctx, rng, count):
     for _ in range(count):
-        monitor = rng.choice(["offd", "offd", "ond"])
-        past = monitor == "ond"
+        monitor = rng.choice(["offd", "offd", "ond", "ond-reset"])
+        past = monitor != "offd"
         allow = F.PAST_ONLY - {"fn", "iffxor"} if past else F.ALL_DISCRETE_OFFLINE - {"fn", "iffxor"}
         g = F.Gen(rng, VARS, allow, max_bound=rng.choice([1, 2, 3, 4]))
         n = rng.choice([1, 2, 3]) if rng.random() < 0.2 else rng.randint(2, 12)
         for name, lhs, rhs in laws(rng, g, past):
             vs = sorted(set(F.variables(lhs)) | set(F.variables(rhs))) or ["a"]
             data = F.gen_trace(rng, vs, n)
+            hist = F.gen_trace(rng, vs, rng.randint(1, 5)) if monitor == "ond-reset" else None
             ctx.evaluations += 1
             ctx.count("law:%s/%s" % (name, monitor))
-            v = check_instance(ctx, monitor, name, lhs, rhs, data, n)
+            v = check_instance(ctx, monitor, name, lhs, rhs, data, n, hist)
             if v is None:
                 ctx.traces_validated += 1
                 if len(ctx.samples) < 4 and F.depth(lhs) >= 3:
@@ -101,7 +113,8 @@ def replay(ctx, obj):
         return dense.replay_law(ctx, obj)
     lhs, rhs = F.from_proto(obj["lhs_proto"]), F.from_proto(obj["rhs_proto"])
     data = {k: [float(x) for x in v] for k, v in obj["data"].items()}
-    v = check_instance(Ctx(ctx.id, ctx.tier, ctx.seed), obj["monitor"], obj["law"], lhs, rhs, data, obj["n"])
+    hist = {k: [float(x) for x in v_] for k, v_ in obj["history"].items()} if obj.get("history") else None
+    v = check_instance(Ctx(ctx.id, ctx.tier, ctx.seed), obj["monitor"], obj["law"], lhs, rhs, data, obj["n"], hist)
     return (v is None), (v.what if v else "both sides agree on the replayed case")
 
 
